@@ -2,7 +2,7 @@
 C11 (source tie) — the hand-written model of `RrdpServer::find_deltas_truncate_age`
 (`KM.Pubd.findTruncateAge` / `truncLoop`, Pubd/Rrdp.lean) equals the definition that the translator
 `pure_fns` regenerates from `/repo/src/server/pubd/rrdp.rs` on every run
-(`Generated/PureFnsC11.lean`, `KM.Gen.RrdpServer.find_deltas_truncate_age`).
+(`Generated/PureFnsC11.lean`, `KM.Gen.C11.RrdpServer.find_deltas_truncate_age`).
 
 `deltas_le_max_partial` (Props/C11.lean) and the manager model (`Pubd/Manager.lean`) are about
 `findTruncateAge`.  With `gen_find_deltas_truncate_age_eq_model` that function is tied to the Rust
@@ -24,16 +24,16 @@ open KM.Pubd
 theorem gen_loop_eq_model {Δ : Type} (younger older : Δ → Nat → Bool) (all : List Δ)
     (minNr minSecs maxNr maxSecs : Nat) (l : List Δ) :
     ∀ keep : Nat,
-      KM.Gen.RrdpServer.find_deltas_truncate_age.loop younger older all minNr minSecs maxNr maxSecs keep l =
+      KM.Gen.C11.RrdpServer.find_deltas_truncate_age.loop younger older all minNr minSecs maxNr maxSecs keep l =
         truncLoop minNr maxNr keep (l.map fun d => (younger d minSecs, older d maxSecs)) := by
   induction l with
   | nil =>
     intro keep
-    simp [KM.Gen.RrdpServer.find_deltas_truncate_age.loop, KM.Gen.RrdpServer.find_deltas_truncate_age.after,
+    simp [KM.Gen.C11.RrdpServer.find_deltas_truncate_age.loop, KM.Gen.C11.RrdpServer.find_deltas_truncate_age.after,
       truncLoop]
   | cons d tl ih =>
     intro keep
-    simp only [KM.Gen.RrdpServer.find_deltas_truncate_age.loop, KM.Gen.RrdpServer.find_deltas_truncate_age.after,
+    simp only [KM.Gen.C11.RrdpServer.find_deltas_truncate_age.loop, KM.Gen.C11.RrdpServer.find_deltas_truncate_age.after,
       List.map_cons, truncLoop, ih]
     simp only [Bool.or_eq_true, decide_eq_true_eq, beq_iff_eq]
 
@@ -42,20 +42,20 @@ applied to the per-delta age pairs – for every list of deltas, every pair of a
 four configuration numbers. -/
 theorem gen_find_deltas_truncate_age_eq_model {Δ : Type} (younger older : Δ → Nat → Bool)
     (deltas : List Δ) (minNr minSecs maxNr maxSecs : Nat) :
-    KM.Gen.RrdpServer.find_deltas_truncate_age younger older deltas minNr minSecs maxNr maxSecs =
+    KM.Gen.C11.RrdpServer.find_deltas_truncate_age younger older deltas minNr minSecs maxNr maxSecs =
       findTruncateAge minNr maxNr (deltas.map fun d => (younger d minSecs, older d maxSecs)) := by
-  simp only [KM.Gen.RrdpServer.find_deltas_truncate_age, findTruncateAge]
+  simp only [KM.Gen.C11.RrdpServer.find_deltas_truncate_age, findTruncateAge]
   exact gen_loop_eq_model younger older deltas minNr minSecs maxNr maxSecs deltas 0
 
 /-- Non-vacuity: with `Δ = Bool × Bool` and the projections as age tests the generated function is
 the model function itself; it reaches the three arms (keep by number, stop at `max_nr - 1`, stop
 by age, keep the remainder). -/
 example :
-    KM.Gen.RrdpServer.find_deltas_truncate_age (fun d _ => d.1) (fun d _ => d.2)
+    KM.Gen.C11.RrdpServer.find_deltas_truncate_age (fun d _ => d.1) (fun d _ => d.2)
         [(false, false), (false, false), (false, false)] 1 0 3 0 = 2 ∧
-    KM.Gen.RrdpServer.find_deltas_truncate_age (fun d _ => d.1) (fun d _ => d.2)
+    KM.Gen.C11.RrdpServer.find_deltas_truncate_age (fun d _ => d.1) (fun d _ => d.2)
         [(true, false), (false, false), (false, true), (false, false)] 0 0 9 0 = 2 ∧
-    KM.Gen.RrdpServer.find_deltas_truncate_age (fun d _ => d.1) (fun d _ => d.2)
+    KM.Gen.C11.RrdpServer.find_deltas_truncate_age (fun d _ => d.1) (fun d _ => d.2)
         [(false, false), (false, false)] 0 0 0 0 = 0 := by
   decide
 
